@@ -36,7 +36,14 @@ def gen_opts(rng):
     outs = rng.sample(OUTS, k)
     if "ao" not in outs and rng.chance(1, 2):
         outs.append("ao")
-    return [q] + [worlds.OUT_FLAG[o] for o in sorted(outs)]
+    extra = []
+    if "c" in outs and rng.chance(1, 4):
+        extra.append("-Csmax=%d" % rng.choice([1, 5, 50]))	# split C: several .c files and a .h
+    if rng.chance(1, 4):
+        extra.append("-Fmain")
+    if rng.chance(1, 6):
+        extra.append("-Wcheck")		# the compiler's own assertions and washing: input, same in R0 and Ri
+    return [q] + extra + [worlds.OUT_FLAG[o] for o in sorted(outs)]
 
 
 def gen_perturbation(rng, nalloc):
